@@ -1577,6 +1577,162 @@ def render_congr() -> str:
     return "\n".join(lines)
 
 
+# ---------------------------------------------------------------------------------------------
+# to_serializable_errs / pred_to_err_message (koda_validate/serialization/errors.py) -> Koda.RStmt
+# (lean/KodaModel/PyRender.lean)
+
+OUT_RENDER = os.path.join(os.path.dirname(OUT), "RenderSrc.lean")
+RERR = {"CoercionErr": "coercion", "SerializableErr": "serializable", "ExtraKeysErr": "extraKeys", "TypeErr": "type",
+        "PredicateErrs": "preds", "IndexErrs": "index", "MissingKeyErr": "missingKey", "MapErr": "map", "SetErrs": "set",
+        "KeyErrs": "keys", "UnionErrs": "union", "ContainerErr": "container"}
+RVLD = {"UUIDValidator": "uuid", "DecimalValidator": "decimal", "DatetimeValidator": "datetime", "DateValidator": "date",
+        "DataclassValidator": "dataclass", "NamedTupleValidator": "namedtuple"}
+RTY = {"list": ".list", "tuple": ".tuple", "dict": ".dict"}
+RENDER_PROLOGUE = ["next_level = next_level or to_serializable_errs", "err = invalid.err_type", "vldtr = invalid.validator"]
+RENDER_RETURNS = {
+    "err.obj": "obj",
+    "[pred_to_err_message(p) for p in err.predicates]": "predMsgs",
+    "[[i, next_level(err)] for i, err in err.indexes.items()]": "indexPairs",
+    "{'member_errors': [next_level(x) for x in err.item_errs]}": "members",
+    "{str(k): next_level(v) for k, v in err.keys.items()}": "keysDict",
+    "{'variants': [next_level(x) for x in err.variants]}": "variants",
+    "next_level(err.child)": "child",
+}
+RENDER_MAP_LOOP = ["errs_dict: Dict[str, Serializable] = {}",
+                   "for key, k_v_errs in err.keys.items():\n"
+                   "    kv_dict: Dict[str, Serializable] = {k: next_level(v) for k, v in [('key', k_v_errs.key), "
+                   "('value', k_v_errs.val)] if v is not None}\n"
+                   "    errs_dict[str(key)] = kv_dict",
+                   "return errs_dict"]
+RENDER_BOUND = {"next_level", "err", "vldtr", "invalid"}
+MESSAGE_PINS = ["_safe_repr", "_trunc_str", "_get_arg_fail_message", "_get_args_fail_msg"]
+
+
+def _is_text(e: ast.AST) -> bool:
+    return isinstance(e, ast.JoinedStr) or (isinstance(e, ast.Constant) and isinstance(e.value, str))
+
+
+class RTr:
+    """serialization/errors.py: the isinstance chain of `to_serializable_errs`"""
+
+    def cond(self, e: ast.AST) -> str:
+        if isinstance(e, ast.Call) and isinstance(e.func, ast.Name) and e.func.id == "isinstance" and len(e.args) == 2 \
+                and not e.keywords and isinstance(e.args[0], ast.Name):
+            who, what = e.args[0].id, e.args[1]
+            if who == "err" and isinstance(what, ast.Name):
+                return f"(.isErr {'.' + RERR[what.id] if what.id in RERR else '(.other ' + lstr(what.id) + ')'})"
+            if who == "vldtr":
+                names = [what] if isinstance(what, ast.Name) else list(what.elts) if isinstance(what, ast.Tuple) else None
+                if names is not None and all(isinstance(n, ast.Name) for n in names):
+                    return "(.isVldtr [" + ", ".join('.' + RVLD[n.id] if n.id in RVLD else '(.other ' + lstr(n.id) + ')'
+                                                     for n in names) + "])"
+        if isinstance(e, ast.Compare) and len(e.ops) == 1 and isinstance(e.ops[0], ast.Is) \
+                and isinstance(e.comparators[0], ast.Name) and e.comparators[0].id in RTY:
+            left = ast.unparse(e.left)
+            if left == "err.dest_type":
+                return f"(.destIs {RTY[e.comparators[0].id]})"
+            if left == "err.expected_type":
+                return f"(.expectedIs {RTY[e.comparators[0].id]})"
+        if isinstance(e, ast.BoolOp) and isinstance(e.op, ast.Or) and len(e.values) >= 2:
+            out = self.cond(e.values[-1])
+            for v in reversed(e.values[:-1]):
+                out = f"(.or {self.cond(v)} {out})"
+            return out
+        return f"(.unsupported {unsupported(e)})"
+
+    def ret(self, e: ast.AST) -> str:
+        src = ast.unparse(e)
+        if src in RENDER_RETURNS:
+            return "." + RENDER_RETURNS[src]
+        if isinstance(e, ast.List) and len(e.elts) == 1 and _is_text(e.elts[0]):
+            return ".msgList"
+        if isinstance(e, ast.Dict) and len(e.keys) == 1 and isinstance(e.keys[0], ast.Constant):
+            k, v = e.keys[0].value, e.values[0]
+            if k == "__container__" and isinstance(v, ast.List) and len(v.elts) == 1 and _is_text(v.elts[0]):
+                return ".containerMsg"
+            if k == "__unknown_keys__" and isinstance(v, ast.Name) and v.id not in RENDER_BOUND:
+                return ".unknownKeys"
+        return f"(.unsupported {unsupported(e)})"
+
+    def text_only(self, st: ast.stmt) -> bool:
+        """assigns to local names other than the bound ones, and nothing else"""
+        if isinstance(st, ast.Assign):
+            return all(isinstance(t, ast.Name) and t.id not in RENDER_BOUND for t in st.targets)
+        if isinstance(st, ast.If):
+            return all(self.text_only(x) for x in st.body + st.orelse)
+        return False
+
+    def stmt(self, st: ast.stmt) -> str:
+        if self.text_only(st):
+            return ".text"
+        if isinstance(st, ast.If):
+            return f"(.ite {self.cond(st.test)} {self.block(st.body)} {self.block(st.orelse)})"
+        if isinstance(st, ast.Return) and st.value is not None:
+            return f"(.ret {self.ret(st.value)})"
+        if isinstance(st, ast.Raise) and isinstance(st.exc, ast.Call) and ast.unparse(st.exc.func) == "TypeError":
+            return ".raiseTypeError"
+        return f"(.unsupported {unsupported(st)})"
+
+    def block(self, body: List[ast.stmt]) -> str:
+        if [ast.unparse(b) for b in body] == RENDER_MAP_LOOP:
+            return "[.ret .mapDict]"
+        return "[" + ", ".join(self.stmt(b) for b in body) + "]"
+
+
+def render_render() -> str:
+    lines = ["/- GENERATED by harness/pysrc.py from the current source of /repo/koda_validate — do not edit -/",
+             "import KodaModel.PyRender", "", "namespace Koda.Src", ""]
+    f = _find_function("serialization/errors.py", "to_serializable_errs")
+    ok_sig = f is not None and [a.arg for a in f.args.args] == ["invalid", "next_level"] and not f.decorator_list
+    body = [b for b in (f.body if f is not None else []) if not (isinstance(b, ast.Expr) and isinstance(b.value, ast.Constant))]
+    prologue_ok = ok_sig and [ast.unparse(b) for b in body[:3]] == RENDER_PROLOGUE
+    term = RTr().block(body[3:]) if prologue_ok else '[.unsupported "signature / prologue"]'
+    lines += ["def toSerializableErrs : List RStmt :=", f"  {term}", ""]
+    # pred_to_err_message: `if isinstance(pred, K): ... return <text>` arms, last arm raises TypeError
+    g = _find_function("serialization/errors.py", "pred_to_err_message")
+    handled: List[str] = []
+    else_raises = False
+    node = g.body[-1] if g is not None and g.body else None
+    shape_ok = g is not None and [a.arg for a in g.args.args] == ["pred"] and \
+        all(isinstance(b, ast.Expr) and isinstance(b.value, ast.Constant) for b in g.body[:-1])
+    while shape_ok and isinstance(node, ast.If):
+        t = node.test
+        arm_ok = (isinstance(t, ast.Call) and ast.unparse(t.func) == "isinstance" and len(t.args) == 2
+                  and ast.unparse(t.args[0]) == "pred" and isinstance(t.args[1], ast.Name)
+                  and isinstance(node.body[-1], ast.Return) and node.body[-1].value is not None
+                  and _is_text(node.body[-1].value)
+                  and all(RTr().text_only(x) or isinstance(x, ast.Try) for x in node.body[:-1]))
+        if not arm_ok:
+            handled.append("<unsupported arm: " + ast.unparse(t) + ">")
+        else:
+            handled.append(t.args[1].id)
+        if len(node.orelse) == 1 and isinstance(node.orelse[0], ast.If):
+            node = node.orelse[0]
+        else:
+            else_raises = (len(node.orelse) == 1 and isinstance(node.orelse[0], ast.Raise)
+                           and isinstance(node.orelse[0].exc, ast.Call)
+                           and ast.unparse(node.orelse[0].exc.func) == "TypeError")
+            node = None
+    # the argument-failure message renderer of signature.py: pinned statement by statement
+    pins: List[str] = []
+    for name in MESSAGE_PINS:
+        h = _find_function("signature.py", name)
+        if h is None:
+            pins.append(f"{name}: <not found>")
+            continue
+        pins.append(f"{name}({ast.unparse(h.args)})")
+        pins += [f"{name}: " + ast.unparse(b) for b in h.body
+                 if not (isinstance(b, ast.Expr) and isinstance(b.value, ast.Constant))]
+    for cls in ("InvalidArgsError", "InvalidReturnError"):
+        m = _find_method("signature.py", cls, "__init__")
+        pins.append(f"{cls}.__init__: " + (" ; ".join(ast.unparse(b) for b in m.body) if m is not None else "<not found>"))
+    lines += ["def messagePins : List String := [" + ",\n  ".join(lstr(x) for x in pins) + "]", ""]
+    lines += ["def predToErrMessage : PredMsgSrc :=",
+              "  { handled := [" + ", ".join(lstr(h) for h in handled) + "],",
+              f"    elseRaisesTypeError := {'true' if else_raises else 'false'} }}", "", "end Koda.Src", ""]
+    return "\n".join(lines)
+
+
 def render() -> str:
     found = collect()
     lines = ["/- GENERATED by harness/pysrc.py from the current source of /repo/koda_validate — do not edit -/",
@@ -1595,7 +1751,7 @@ def render() -> str:
 
 def regenerate() -> bool:
     changed = False
-    for path, new in ((OUT, render()), (OUT_COERCE, render_coerce()), (OUT_SCALAR, render_scalar()), (OUT_UNION, render_union()), (OUT_LIST, render_list()), (OUT_WRAP, render_wrap()), (OUT_EQ, render_eq()), (OUT_CACHE, render_cache()), (OUT_SEQ, render_seq()), (OUT_NTUPLE, render_ntuple()), (OUT_MAP, render_map()), (OUT_DICTANY, render_dictany()), (OUT_CONGR, render_congr())):
+    for path, new in ((OUT, render()), (OUT_COERCE, render_coerce()), (OUT_SCALAR, render_scalar()), (OUT_UNION, render_union()), (OUT_LIST, render_list()), (OUT_WRAP, render_wrap()), (OUT_EQ, render_eq()), (OUT_CACHE, render_cache()), (OUT_SEQ, render_seq()), (OUT_NTUPLE, render_ntuple()), (OUT_MAP, render_map()), (OUT_DICTANY, render_dictany()), (OUT_CONGR, render_congr()), (OUT_RENDER, render_render())):
         old = open(path).read() if os.path.exists(path) else None
         if new != old:
             with open(path, "w") as f:
